@@ -176,6 +176,12 @@ impl Tileset<RawPixels> {
             width: tile_width,
             height: tile_height,
         };
+        if tile_width == 0 || tile_height == 0 {
+            return Err(AsepriteParseError::InvalidInput(format!(
+                "Invalid tile size in tileset {}: {}x{}",
+                id, tile_width, tile_height
+            )));
+        }
         let base_index = reader.short()?;
         reader.skip_reserved(14)?;
         let name = reader.string()?;
